@@ -70,10 +70,14 @@ type c15Case struct {
 	History int
 	Net     simnet.Profile
 	Ops     []c15Op
+	// ViaHost: stored/deleted events reach the hub the way they do in the server - emitted on the
+	// extension host, on which the hub registered itself - instead of through Dispatch/Delete
+	// (only when every listener is well-behaved, so that the driver can tell what the hub has seen)
+	ViaHost bool
 }
 
 func (k *c15Case) Describe() []string {
-	l := []string{fmt.Sprintf("history=%d %s", k.History, profileString(k.Net))}
+	l := []string{fmt.Sprintf("history=%d %s events-through-extension-host=%v", k.History, profileString(k.Net), k.ViaHost)}
 	for i, o := range k.Ops {
 		l = append(l, fmt.Sprintf("%3d %s", i, o))
 	}
@@ -132,8 +136,20 @@ func genC15(w *simrt.Choices, tier string, avoid map[string]bool) Case {
 		}
 		k.Ops = append(k.Ops, o)
 	}
+	k.ViaHost = w.Choose(2) == 0
+	for _, o := range k.Ops {
+		if o.Kind == "join" && o.L.Beh != "good" {
+			k.ViaHost = false
+		}
+	}
 	return k
 }
+
+// c15Sentinel is a hub listener of the driver that counts what the hub has processed.
+type c15Sentinel struct{ n int }
+
+func (l *c15Sentinel) Receive(m event.MessageMetadata) error { l.n++; return nil }
+func (l *c15Sentinel) Delete(mailbox, id string) error       { l.n++; return nil }
 
 // hub-order event as the driver issued it
 type c15Ev struct {
@@ -250,6 +266,29 @@ func runC15(c *Ctx, cs Case) {
 
 	var events []c15Ev
 	var dispatched []c15Ev
+	sentinel := &c15Sentinel{}
+	if k.ViaHost {
+		hub.AddListener(sentinel)
+		c.Main.Quiesce()
+	}
+	// flush (events through the extension host): wait until the hub has processed everything
+	// emitted so far, so that the driver knows where in the hub's order a join or sync falls
+	flush := func(why string) bool {
+		if !k.ViaHost {
+			return true
+		}
+		for i := 0; i < 20000 && sentinel.n < len(events); i++ {
+			c.Main.Quiesce()
+			if sentinel.n < len(events) {
+				simrt.Sleep(5 * time.Millisecond)
+			}
+		}
+		if sentinel.n != len(events) {
+			c.Failf("events-emitted-on-the-extension-host-do-not-reach-the-hub", "%s: %d stored/deleted events were emitted on the extension host, the hub has processed %d after 100 simulated seconds", why, len(events), sentinel.n)
+			return false
+		}
+		return true
+	}
 	var listeners []*c15Attached
 	nextID := 0
 	port := 50000
@@ -257,7 +296,11 @@ func runC15(c *Ctx, cs Case) {
 	dispatch := func(box string) {
 		nextID++
 		id := fmt.Sprintf("m%d", nextID)
-		hub.Dispatch(event.MessageMetadata{Mailbox: box, ID: id, Subject: "s" + id, Date: time.Now(), Size: 10})
+		if k.ViaHost {
+			eh.Events.AfterMessageStored.Emit(&event.MessageMetadata{Mailbox: box, ID: id, Subject: "s" + id, Date: time.Now(), Size: 10})
+		} else {
+			hub.Dispatch(event.MessageMetadata{Mailbox: box, ID: id, Subject: "s" + id, Date: time.Now(), Size: 10})
+		}
 		ev := c15Ev{"stored", box, id}
 		events = append(events, ev)
 		dispatched = append(dispatched, ev)
@@ -367,9 +410,16 @@ func runC15(c *Ctx, cs Case) {
 				d := dispatched[o.Ref%len(dispatched)]
 				ev = c15Ev{"deleted", d.Box, d.ID}
 			}
-			hub.Delete(ev.Box, ev.ID)
+			if k.ViaHost {
+				eh.Events.AfterMessageDeleted.Emit(&event.MessageMetadata{Mailbox: ev.Box, ID: ev.ID})
+			} else {
+				hub.Delete(ev.Box, ev.ID)
+			}
 			events = append(events, ev)
 		case "join":
+			if !flush("before a join") {
+				return
+			}
 			a := &c15Attached{spec: o.L, name: fmt.Sprintf("L%d", len(listeners)), lo: len(events)}
 			listeners = append(listeners, a)
 			if o.L.Kind == "h" {
@@ -383,6 +433,9 @@ func runC15(c *Ctx, cs Case) {
 				}
 			}
 		case "sync":
+			if !flush("before a sync") {
+				return
+			}
 			if !syncHub(fmt.Sprintf("op %d", i)) {
 				return
 			}
@@ -395,6 +448,12 @@ func runC15(c *Ctx, cs Case) {
 		}
 	}
 	// drain: the hub must still make progress, then everything in flight arrives
+	if k.ViaHost {
+		if !flush("at the end") {
+			return
+		}
+		c.Stat("probe.runs_with_events_through_the_extension_host", 1)
+	}
 	if !syncHub("final") {
 		return
 	}
